@@ -36,13 +36,15 @@ type recDCS struct {
 
 func (d *recDCS) cut() bool { return !d.zk.Established(d.name) }
 
-func short(v any) string {
+func short(v any) string { return shortN(v, 600) }
+
+func shortN(v any, n int) string {
 	b, err := json.Marshal(v)
 	if err != nil {
 		return fmt.Sprint(v)
 	}
-	if len(b) > 600 {
-		return string(b[:600]) + "…"
+	if len(b) > n {
+		return string(b[:n]) + "…"
 	}
 	return string(b)
 }
@@ -177,7 +179,7 @@ func (d *recDCS) Get(p string, dest any) error {
 	}
 	d.post()
 	if err == nil {
-		d.rec("Get", p, "", short(dest), nil)
+		d.rec("Get", p, "", shortN(dest, 2500), nil)
 	} else {
 		d.rec("Get", p, "", "", err)
 	}
